@@ -11,6 +11,7 @@ import H263V.Lemmas.AnnexA5
 import H263V.Lemmas.AnnexA6
 import H263V.Lemmas.AnnexA7
 import H263V.Lemmas.F32Range
+import H263V.Lemmas.IdctErr
 namespace H263V.Thm.C10
 open H263V H263V.Idct H263V.Spec.AnnexA H263V.Lemmas.AnnexA
 
@@ -23,6 +24,17 @@ theorem annexA_range_300_300 : rangeOk 1 300 300 false 10000 = true := range3_ok
 theorem annexA_range_neg_256_255 : rangeOk 1 256 255 true 10000 = true := range4_ok
 theorem annexA_range_neg_5_5 : rangeOk 1 5 5 true 10000 = true := range5_ok
 theorem annexA_range_neg_300_300 : rangeOk 1 300 300 true 10000 = true := range6_ok
+
+/-- **Peak error for EVERY block** (not a sample; ordinary axioms, no `native_decide`).  For every 8x8 coefficient block whose
+entries have magnitude at most 2048 — whatever dequantisation can produce — and every sample position, the decoder's full
+inverse transform differs from the Annex A reference (exact arithmetic with 40-digit cosines, nearest integer, clipped to
+-256..255) by at most 1.  Forward error analysis over the rationals: each binary32 operation has relative error at most 2^-24
+(`rnd24_err`, proved from the bit-level rounding), two passes of eight-term running sums accumulate at most 0.86 before the
+division by four, the final `+ signum * 0.5` / truncation is within 1/2 + 0.071 of the quotient, and the regenerated table is within
+9 * 2^-24 of the ideal basis at every entry (kernel-checked), which moves the exact value by at most 0.106. -/
+theorem full_transform_peak_error_all_blocks (coef : Blk) (hb : ∀ v ∈ coef.toList, v.natAbs ≤ 2048) (i : Nat) (hi : i < 64) :
+    ((modelIdct coef).getD i 0 - (refIdct coef).getD i 0).natAbs ≤ 1 :=
+  Lemmas.IdctErr.full_within_one coef hb i hi
 
 /-- an all-zero coefficient block maps to all zeros (kernel-checked) -/
 theorem zero_block : modelIdct (Array.replicate 64 0) = Array.replicate 64 0 := by decide +kernel
